@@ -241,8 +241,9 @@ def main():
         for k, n in (r.get("known") or {}).items():
             d = known.setdefault(k, {"count": 0, "what": (r.get("known_desc") or {}).get(k, "")})
             d["count"] += n
-    write_evidence(pid, spec, tier, seed, recs, wall, violations=violations, known=known,
-                   infra="; ".join(infra) if infra else None)
+    if not replay:  # a replay run never overwrites the evidence of the registered commands
+        write_evidence(pid, spec, tier, seed, recs, wall, violations=violations, known=known,
+                       infra="; ".join(infra) if infra else None)
 
     for k, d in sorted(known.items()):
         log(f"KNOWN-FINDING: property={pid} {k}: {d['what']} (seen {d['count']}x in this run)")
@@ -259,9 +260,12 @@ def main():
         for x in infra:
             log("INCONCLUSIVE: " + x)
         return 2
-    ev = json.load(open(os.path.join(VERIF, "evidence", pid + ".json")))
-    log(f"OK property={pid} tier={tier} seed={seed} evaluations={ev['coverage']['evaluations']} "
-        f"distinct_nontrivial={ev['coverage']['distinct_nontrivial']} wall={wall:.1f}s")
+    if replay:
+        log(f"OK property={pid} replay={replay} held")
+    else:
+        ev = json.load(open(os.path.join(VERIF, "evidence", pid + ".json")))
+        log(f"OK property={pid} tier={tier} seed={seed} evaluations={ev['coverage']['evaluations']} "
+            f"distinct_nontrivial={ev['coverage']['distinct_nontrivial']} wall={wall:.1f}s")
     if "--keep" not in args:
         shutil.rmtree(rundir, ignore_errors=True)
     return 0
